@@ -34,6 +34,10 @@ pub struct Case {
     /// evaluate a snapshot of the network (fresh `Network`, public fields taken over)
     #[serde(default)]
     pub snapshot: bool,
+    /// `k >= 2`: `predict_batch` (it takes `&self`) is called by k parallel tasks of one pool
+    /// on the shared network; every task's result must be the sequential one
+    #[serde(default)]
+    pub shared_calls: usize,
 }
 
 #[derive(Serialize, Deserialize, Clone, Debug)]
@@ -96,7 +100,19 @@ fn execute(case: &Case, ctx: &mut Ctx) -> Observed {
     ctx.op();
     let pxr: Vec<&tensor::Tensor> = px.iter().collect();
     // (also for zero inputs: "for any number of inputs")
-    let batch: Vec<Vec<u32>> = net.predict_batch(&pxr).iter().map(|t| bits(&flat(t))).collect();
+    let batch: Vec<Vec<u32>> = if case.shared_calls >= 2 {
+        use rayon::prelude::*;
+        let shared = &net;
+        let outs: Vec<Vec<Vec<u32>>> = (0..case.shared_calls)
+            .into_par_iter()
+            .map(|_| shared.predict_batch(&pxr).iter().map(|t| bits(&flat(t))).collect())
+            .collect();
+        // report the first task whose result is not the sequential one (if any)
+        let bad = outs.iter().position(|o| *o != reference).unwrap_or(0);
+        outs.into_iter().nth(bad).unwrap_or_default()
+    } else {
+        net.predict_batch(&pxr).iter().map(|t| bits(&flat(t))).collect()
+    };
     ctx.op();
     let validate = if ex.is_empty() {
         None
@@ -185,6 +201,7 @@ impl Property for C12 {
             "width_ge_8192",
             "output_activation_reset",
             "snapshot_network",
+            "predict_batch_from_parallel_tasks",
         ]
     }
 
@@ -267,7 +284,8 @@ impl Property for C12 {
             ys.push(y);
         }
         let snapshot = rng.chance(0.08);
-        Case { net, env, eval: Data { x: xs, y: ys }, tol, pred, pre, snapshot }
+        let shared_calls = if !crate::gen::scale() && rng.chance(0.1) { rng.range(2, 4) } else { 0 };
+        Case { net, env, eval: Data { x: xs, y: ys }, tol, pred, pre, snapshot, shared_calls }
     }
 
     fn check(&self, case: &Case, stats: &mut Stats) -> Outcome {
@@ -287,6 +305,7 @@ impl Property for C12 {
         stats.probe("width_ge_8192", case.net.shapes().map(|v| v.iter().any(|s| s.count() >= 8192)).unwrap_or(false));
         stats.probe("output_activation_reset", case.net.built_last_act.is_some());
         stats.probe("snapshot_network", case.snapshot);
+        stats.probe("predict_batch_from_parallel_tasks", case.shared_calls >= 2 && !case.pred.is_empty());
         stats.probe("after_training_history", case.pre.is_some());
         stats.probe("after_training_with_dropout", case.pre.is_some() && case.net.has_dropout());
         stats.probe(&format!("objective_{:?}", case.net.objective), true);
@@ -459,6 +478,11 @@ impl Property for C12 {
         if case.snapshot {
             let mut c = lenient(case);
             c.snapshot = false;
+            out.push(c);
+        }
+        if case.shared_calls >= 2 {
+            let mut c = lenient(case);
+            c.shared_calls = 0;
             out.push(c);
         }
         if case.pre.is_some() {
